@@ -266,6 +266,56 @@ pub fn cases(tier: Tier) -> Vec<GCase> {
                 out.push(seam_case(&gn, g, &sn, s, &dn, d, tier, explore));
             }
 
+            // non-initial composer states: the component was already used with OTHER generators
+            // (every sequence of up to three earlier multiplications over four generators)
+            if gn == "G" && (sn == "1" || sn == "rJ-1" || sn == "rJ") {
+                let pool: Vec<JubJubExtended> = vec![
+                    GENERATOR_EXTENDED,
+                    GENERATOR_NUMS_EXTENDED,
+                    GENERATOR_NUMS_EXTENDED * dusk_jubjub::JubJubScalar::from(3u64),
+                    GENERATOR_EXTENDED * dusk_jubjub::JubJubScalar::from(5u64),
+                ];
+                let mut seqs: Vec<Vec<usize>> = vec![];
+                let mut frontier: Vec<Vec<usize>> = vec![vec![]];
+                for _ in 0..3 {
+                    let mut next = vec![];
+                    for f in &frontier {
+                        for i in 0..pool.len() {
+                            let mut n = f.clone();
+                            n.push(i);
+                            next.push(n);
+                        }
+                    }
+                    seqs.extend(next.iter().cloned());
+                    frontier = next;
+                }
+                for (qi, seq) in seqs.iter().enumerate() {
+                    let hname = format!("generators{:?}", seq);
+                    let gens: Vec<JubJubExtended> = seq.iter().map(|i| pool[*i]).collect();
+                    let gadget = Gadget::new(&format!("mul_generator/{}/s={}", gn, sn), vec![s], move |c, ins| {
+                        let p = c.component_mul_generator(ins[0], g)?;
+                        Ok(vec![*p.x(), *p.y()])
+                    })
+                    .with_prelude(&hname, move |c, _| {
+                        for (j, h) in gens.iter().enumerate() {
+                            let k = c.append_witness(fe(2 + j as u64));
+                            c.component_mul_generator(k, *h)?;
+                        }
+                        Ok(())
+                    });
+                    let e = if canonical {
+                        let p = mul_native(&g, &si);
+                        Expect::Sat(vec![p.x, p.y])
+                    } else {
+                        Expect::Unsat
+                    };
+                    let mut c = GCase::new(gadget, e, "mul_generator/after-other-generators");
+                    c.dev_stride = 0;
+                    c.confirm = tier == Tier::Thorough || qi % 8 == 0;
+                    out.push(c);
+                }
+            }
+
             // non-initial composer states: the scalar witness already has a history
             // (range-checked to some width, or multiplied by another generator)
             if gn == "G" || tier == Tier::Thorough {
@@ -311,7 +361,7 @@ pub fn main(tier: Tier, replay: Option<serde_json::Value>) -> i32 {
     let mut run = Run::new("C14", tier, "model_checking");
     run.rule = "cases = (generator, scalar witness incl. r_J-1, r_J, r_J+1, 2^252-1, non-canonical, random) x prover-chosen signed-digit vectors through the seam: honest width-2 NAF, plain binary, every single-digit deviation, same-integer rewrites, encodings of s+q, s+-r_J, s+2^253, plus bound-1 deviations of the widget's allocations (accumulators, xy_alpha, canonicity range checks); decided by M1; oracle: satisfiable iff scalar < r_J and the digits (three leading zeros) encode it as an integer; every satisfying assignment returns [s]G (own affine arithmetic); non-initial states: the scalar range-checked beforehand to 64 / 251 / 252 / 253 / 254 bits or already multiplied by the same / another generator".into();
     let cs = cases(tier);
-    let cache = ConfirmCache::new(crate::setup::pp(1 << 10));
+    let cache = ConfirmCache::new(crate::setup::pp(1 << 11));
     if let Some(r) = replay {
         return crate::gadget::replay(run, &cs, &cache, &r);
     }
